@@ -124,6 +124,8 @@ fn call_tree(c: &Call) -> C {
 pub enum Ctx {
     SelectWhere,
     Having,
+    /// HAVING on an aggregate query without GROUP BY (the whole table is one group)
+    HavingNoGroup,
     JoinOn,
     UpdateWhere,
     DeleteWhere,
@@ -132,7 +134,7 @@ pub enum Ctx {
     OnConflictTargetWhere,
     PartialIndex,
 }
-pub const CTXS: [Ctx; 9] = [Ctx::SelectWhere, Ctx::Having, Ctx::JoinOn, Ctx::UpdateWhere, Ctx::DeleteWhere, Ctx::CaseWhen, Ctx::OnConflictActionWhere, Ctx::OnConflictTargetWhere, Ctx::PartialIndex];
+pub const CTXS: [Ctx; 10] = [Ctx::SelectWhere, Ctx::Having, Ctx::HavingNoGroup, Ctx::JoinOn, Ctx::UpdateWhere, Ctx::DeleteWhere, Ctx::CaseWhen, Ctx::OnConflictActionWhere, Ctx::OnConflictTargetWhere, Ctx::PartialIndex];
 
 macro_rules! qb {
     ($d:expr, $stmt:expr) => {
@@ -182,9 +184,13 @@ fn render(ctx: Ctx, d: Dialect, calls: &[Call]) -> Option<Result<String, String>
             apply_where(&mut s, calls);
             Some(qb!(d, s))
         }
-        Ctx::Having => {
+        Ctx::Having | Ctx::HavingNoGroup => {
             let mut s = Query::select();
-            s.column(al("id")).from(al("tv")).group_by_columns([al("id"), al("p"), al("q"), al("r"), al("s")]);
+            if ctx == Ctx::Having {
+                s.column(al("id")).from(al("tv")).group_by_columns([al("id"), al("p"), al("q"), al("r"), al("s")]);
+            } else {
+                s.expr(Func::count(Expr::col(Asterisk))).from(al("tv"));
+            }
             for c in calls {
                 match c {
                     Call::And(i) | Call::AndOption(Some(i)) => {
@@ -262,7 +268,7 @@ fn render(ctx: Ctx, d: Dialect, calls: &[Call]) -> Option<Result<String, String>
 fn predicate_text(ctx: Ctx, sql: &str) -> Result<Option<String>, String> {
     let (kw, end): (&str, Option<&str>) = match ctx {
         Ctx::SelectWhere | Ctx::UpdateWhere | Ctx::DeleteWhere | Ctx::PartialIndex => (" WHERE ", None),
-        Ctx::Having => (" HAVING ", None),
+        Ctx::Having | Ctx::HavingNoGroup => (" HAVING ", None),
         Ctx::JoinOn => (" ON ", None),
         Ctx::CaseWhen => (" WHEN (", Some(") THEN ")),
         Ctx::OnConflictActionWhere => (" WHERE ", None),
